@@ -159,6 +159,21 @@ func splitProject(text string, cuts []cut, finalNL bool, crlfPieces bool, dirs .
 	return pr, locate
 }
 
+// c09ExtraDocs: rule-rejected documents that the corpus lacks (the error is found among several candidates, or while a
+// PASTE is expanded), cut like the corpus documents.
+var c09ExtraDocs = []string{
+	// a cycle of two macros, both pasted; the definitions are far apart
+	"JSIGHT 0.3\nTYPE @t any\nMACRO @a\n(\n  GET /a1\n    200 any\n  PASTE @b\n)\nGET /x\n  200 @t\nTAG @tag\nGET /y\n  200 any\nMACRO @b\n(\n  GET /b1\n    200 any\n  PASTE @a\n)\nPASTE @a\n",
+	// two self-recursive macros
+	"JSIGHT 0.3\nMACRO @zz\n(\n  GET /z\n    200 any\n  PASTE @zz\n)\nTYPE @t any\nGET /x\n  200 @t\nMACRO @aa\n(\n  GET /a\n    200 any\n  PASTE @aa\n)\n",
+	// an error raised while a PASTE is expanded (Body directly under GET), the macro defined before and after its use
+	"JSIGHT 0.3\nMACRO @resp\n(\n  Body any\n)\nGET /a\n  PASTE @resp\nGET /b\n  200 any\n",
+	"JSIGHT 0.3\nGET /b\n  200 any\nGET /a\n  PASTE @resp\nMACRO @resp\n(\n  Body any\n)\n",
+	// two duplicate names of different kinds, two undefined types
+	"JSIGHT 0.3\nTYPE @t any\nENUM @e\n  [1]\nGET /a\n  200 @t\nENUM @e\n  [2]\nTYPE @t any\n",
+	"JSIGHT 0.3\nGET /a\n  200 @n1\nTAG @x\nGET /b\n  200 @n2\n",
+}
+
 func workC09(w *run.W) {
 	var p c09Params
 	json.Unmarshal(w.Params, &p)
@@ -166,9 +181,19 @@ func workC09(w *run.W) {
 	defer os.RemoveAll(dir)
 	c09Shared(w, dir)
 	var cidx int64
-	for fi, f := range corpusFiles() {
+	docs := corpusFiles()
+	extra := map[string]string{}
+	for i, t := range c09ExtraDocs {
+		n := fmt.Sprintf("extra:%d", i)
+		extra[n] = t
+		docs = append(docs, n)
+	}
+	for fi, f := range docs {
 		raw, _ := os.ReadFile(f)
 		text := string(raw)
+		if t, ok := extra[f]; ok {
+			text = t
+		}
 		if strings.Contains(text, "\r") || hasInclude(text) || len(text) > p.MaxBytes || strings.Contains(text, "\x00") {
 			continue
 		}
